@@ -34,6 +34,7 @@ def strategy(draw):
     names = sorted(draw(st.lists(st.sampled_from(range(5)), min_size=nchrom, max_size=nchrom, unique=True)))
     chroms = []
     gid = 0
+    style = draw(st.sampled_from(["chr", "chr", ""]))  # chr1..chrY or 1..Y
     for ci in names:
         nblocks = draw(st.integers(0, 7))
         blocks = []
@@ -58,7 +59,7 @@ def strategy(draw):
             prev_inter = False
         if not blocks:
             blocks.append({"t": "inter", "names": [draw(st.sampled_from(INTER_NAMES))] * draw(st.integers(1, 3))})
-        chroms.append({"name": CHROMS[ci], "blocks": blocks})
+        chroms.append({"name": style + CHROMS[ci][3:], "blocks": blocks})
     nbins = sum(len(b.get("pat", b.get("names", []))) for c in chroms for b in c["blocks"])
     seg_cuts = sorted(set(draw(st.lists(st.integers(1, max(1, nbins - 1)), max_size=6))))
     return {"chroms": chroms, "seed": draw(st.integers(0, 2 ** 31)), "index": draw(st.sampled_from([[0, 1], [0, 1], [7, 1], [3, 2], [0, 2, "range"], [1, 3, "range"], [5, 1, "range"]])),
@@ -156,7 +157,7 @@ def make_segments(rows, case):
         w = sum(r["weight"] for r in s)
         vals = [r["log2"] for r in s if r["log2"] > -15] or [0.0]
         lg = float(np.mean(vals)) + (case["seg_jitter"] if k % 2 else 0.0)
-        if k % 3 == 0 and case["seed"] % 2 == 0 and s[0]["chromosome"] != "chrX":
+        if k % 3 == 0 and case["seed"] % 2 == 0 and not s[0]["chromosome"].endswith("X"):
             lg = math.copysign(float(case["threshold"]), lg if lg else 1.0)  # exactly on the threshold: must be reported (>=)
         recs.append({"chromosome": s[0]["chromosome"], "start": s[0]["start"], "end": s[-1]["end"], "gene": "-",
                      "log2": lg, "probes": len(s), "weight": w})
@@ -262,7 +263,7 @@ def check_case(case):
     xshift = -1.0 if (case["female"] and case["male_ref"]) else (1.0 if (not case["female"] and not case["male_ref"]) else 0.0)
 
     def shifted(r):
-        return r["log2"] + (xshift if r["chromosome"] == "chrX" else 0.0)
+        return r["log2"] + (xshift if r["chromosome"].endswith("X") else 0.0)
 
     def low(r):
         return r["log2"] < -15 or r["depth"] == 0
@@ -294,7 +295,7 @@ def check_case(case):
         tbl = reports.do_genemetrics(cnarr, segarr, thr, minp, case["skip_low"], case["male_ref"], case["female"])
         exp_g = []
         for s in segrecs:
-            slog = s["log2"] + (xshift if s["chromosome"] == "chrX" else 0.0)
+            slog = s["log2"] + (xshift if s["chromosome"].endswith("X") else 0.0)
             edge = abs(abs(slog) - thr) < 1e-9 and abs(slog) != thr  # a value exactly on the threshold is not a rounding tie
             if not (abs(slog) >= thr or edge):
                 continue
